@@ -525,6 +525,11 @@ def m_property(ctx, interp, args, kwargs):
     return PyProperty(args[0])
 
 
+def m_staticmethod(ctx, interp, args, kwargs):
+    from .interp import PyStatic
+    return PyStatic(args[0])
+
+
 def m_exec(ctx, interp, args, kwargs):
     code = args[0]
     g = args[1] if len(args) > 1 else kwargs.get("globals")
@@ -784,7 +789,7 @@ def _native_table():
         print: m_print, list: m_list, tuple: m_tuple, set: m_set, dict: m_dict, hash: m_hash,
         id: m_id, type: m_type, range: m_range, enumerate: m_enumerate, zip: m_zip, sum: m_sum,
         any: m_any, all: m_all, min: _minmax(True), max: _minmax(False), property: m_property,
-        compile: m_compile, callable: m_callable, round: m_round, ord: m_ord, chr: m_chr,
+        compile: m_compile, callable: m_callable, staticmethod: m_staticmethod, round: m_round, ord: m_ord, chr: m_chr,
         reversed: m_reversed, frozenset: m_set,
         functools.partial: m_partial, itertools.accumulate: m_accumulate, itertools.repeat: m_repeat,
         math.floor: m_floor, math.isfinite: m_isfinite, math.log: m_log, math.sqrt: m_sqrt,
